@@ -197,6 +197,66 @@ def run_case(ctx, rng, idx):
     if idx < 3:
         ctx.sample({"type": node.src, "data": [lbl for lbl, _, _ in bag][:12], "values": [repr(v)[:80] for v in values]})
     check_program(ctx, rng, node, prog, values, bag)
+    union_dispatch_case(ctx, rng)
+
+
+def union_dispatch_case(ctx, rng):  # noqa: C901
+    """'Union dumped by runtime class with nearest-ancestor fallback' over random class hierarchies with multiple inheritance:
+    the case used for an object is the FIRST class of type(obj).__mro__ that is listed in the union - for every object, whatever was
+    dumped before through the same retort (seeded change: a dispatch memo that is only sound under single inheritance)."""
+    import typing as t  # noqa: PLC0415
+
+    from adaptix import DebugTrail, Retort, dumper  # noqa: PLC0415
+
+    # random DAG of classes: every class picks 0-2 bases among the earlier ones (orders that Python refuses are skipped)
+    classes = []
+    for i in range(rng.randint(4, 8)):
+        for _ in range(4):
+            bases = tuple(rng.sample(classes, min(len(classes), rng.choice([0, 1, 1, 2, 2]))))
+            try:
+                classes.append(type(f"K{i}", bases, {"__init__": lambda self: None, "__repr__": lambda self: type(self).__name__ + "()"}))
+                break
+            except TypeError:
+                continue
+    if len(classes) < 3:
+        return
+    listed = rng.sample(classes, rng.randint(2, min(4, len(classes))))
+    hint = t.Union[tuple(listed)]
+    recipe = [dumper(c, (lambda x, n=c.__name__: n)) for c in listed]
+    dt = rng.choice(list(DebugTrail))
+    retort = Retort(recipe=recipe, debug_trail=dt)
+    made = attempt(retort.get_dumper, hint)
+    made_list = attempt(retort.get_dumper, t.List[hint])
+    ctx.count("union_dispatch_programs")
+    if made.kind != "ok" or made_list.kind != "ok":
+        ctx.violation("no-dumper:Union:classes", f"dumper creation failed for Union of plain classes {listed}: {made!r} {made_list!r}", {"listed": repr(listed)})
+        return
+
+    def expected(obj):
+        for k in type(obj).__mro__:
+            if k in listed:
+                return k.__name__
+        return None
+    order = [c() for c in classes] * 2
+    rng.shuffle(order)
+    desc = {"classes": {c.__name__: [b.__name__ for b in c.__bases__] for c in classes}, "listed": [c.__name__ for c in listed], "order": [type(o).__name__ for o in order], "mode": dt.name}
+    for pos, obj in enumerate(order):
+        got, want = attempt(made.value, obj), expected(obj)
+        ctx.evaluated(("union-dispatch", repr(desc["classes"]), tuple(desc["listed"]), type(obj).__name__, pos), nontrivial=True)
+        ctx.count("union_dispatches")
+        if want is None:
+            if got.kind == "ok":
+                ctx.violation("dump:union-case-for-unrelated-class", f"object of {type(obj).__name__} (no listed ancestor) dumped as {got.value!r} through Union{desc['listed']}", desc)
+        elif got.kind != "ok" or got.value != want:
+            ctx.violation("dump:union-case-not-nearest-ancestor", f"{type(obj).__name__} (mro {[k.__name__ for k in type(obj).__mro__]}) dumped with {got!r:.120}, nearest listed ancestor is {want} "
+                          f"(dump #{pos} through one retort)", {**desc, "object": type(obj).__name__, "position": pos})
+            break
+    ok_objs = [o for o in order if expected(o) is not None]
+    if ok_objs:
+        got = attempt(made_list.value, ok_objs)
+        want = [expected(o) for o in ok_objs]
+        if got.kind != "ok" or list(got.value) != want:
+            ctx.violation("dump:union-case-not-nearest-ancestor", f"List[Union{desc['listed']}] of {[type(o).__name__ for o in ok_objs]} dumped as {got!r:.200}, expected {want}", desc)
 
 
 # ---- directed witnesses for listed findings (run on every invocation, independent of the seed) ----------------
